@@ -155,7 +155,7 @@ def main(tier, seed, replay=None):
 
             facs = [("Solver", lambda: claripy.Solver()), ("SolverCacheless", lambda: claripy.SolverCacheless()),
                     ("SolverComposite", lambda: claripy.SolverComposite())]
-            n_hist = 110 if tier == "quick" else 5000
+            n_hist = 250 if tier == "quick" else 5000
             for k in range(n_hist):
                 if fail:
                     break
